@@ -139,6 +139,39 @@ Inductive value :=
 | VStr (num : option Z) (s : list N)    (* SS_DT_STRING; num = Some q iff MightBeFloat && ParseFloat succeeds *)
 | VNull.                                (* SS_DT_BACKFILL / SS_INVALID *)
 
+(* ---- 64-bit integer sort keys (SS_DT_SIGNED_NUM: CVal int64, SS_DT_UNSIGNED_NUM: CVal uint64) ----
+   The harness passes the 64-bit pattern of CVal and the dtype.  compareValues turns both
+   dtypes into float64 (GetFloatValueIfPossible: float64(int64) / float64(uint64)), i.e. the
+   mathematical value of the integer rounded to 53 significant bits, nearest, ties to even;
+   |value| < 2^64, so the exponent never overflows. *)
+Definition int_of_bits (unsigned : bool) (bits : N) : Z :=
+  if unsigned then Z.of_N bits
+  else if (bits <? 9223372036854775808)%N then Z.of_N bits
+       else (Z.of_N bits - 18446744073709551616)%Z.
+
+(* n rounded to a multiple of 2^sh: nearest, ties to the even multiple (n >= 0) *)
+Definition rne (n sh : Z) : Z :=
+  let p := (2 ^ sh)%Z in
+  let q := (n / p)%Z in
+  let r := (n mod p)%Z in
+  if (2 * r <? p)%Z then (q * p)%Z
+  else if (p <? 2 * r)%Z then ((q + 1) * p)%Z
+  else if Z.even q then (q * p)%Z else ((q + 1) * p)%Z.
+
+(* the spacing of float64 at n: 2^(log2 n - 52), at least 1 *)
+Definition ulp_shift (n : Z) : Z := Z.max 0 (Z.log2 n - 52).
+
+(* float64(n) as an exact integer *)
+Definition f64_of_int (n : Z) : Z :=
+  if (n <? 0)%Z then (- rne (- n) (ulp_shift (- n)))%Z else rne n (ulp_shift n).
+
+(* the comparator's view of an integer-typed column value: its float64 image in units of 1e-6 *)
+Definition int_value (unsigned : bool) (bits : N) (repr : list N) : value :=
+  VNum (f64_of_int (int_of_bits unsigned bits) * 1000000)%Z repr.
+
+(* the integer survives the conversion unchanged *)
+Definition f64_exact (n : Z) : bool := (f64_of_int n =? n)%Z.
+
 Inductive sop := OpAuto | OpNum | OpStr.       (* "", "auto" -> OpAuto *)
 Inductive rank := RNumeric | RString | ROther. (* 1, 2, 3 *)
 Inductive cmp := EQUAL | LESS | GREATER.
